@@ -261,3 +261,114 @@ def run_script(script, py="/venv/bin/python"):
 def key_of(history, final):
     """Normalised identity of a failing history (for the known-findings file)."""
     return json.dumps([history, final], sort_keys=True)
+
+
+MERGE_SCRIPT = r'''# Stand-alone replay for C05 on real h5py: build the source record through the public API, merge, compare.
+import shutil, sys, tempfile
+from pathlib import Path
+import numpy as np
+if not hasattr(np, "cumproduct"):
+    np.cumproduct = np.cumprod  # pint 0.21 on numpy 2.x (import shim only)
+import h5py
+from metador_core.ih5.record import IH5Record
+from metador_core.ih5.manifest import IH5MFRecord
+
+HISTORY = __HISTORY__   # one list of operations per container of the source record
+FOLLOW = __FOLLOW__     # follow-up patch operation applied to the source after the merge
+CLS = {"ih5": IH5Record, "mf": IH5MFRecord}[__CLS__]
+
+
+def is_ds(n):
+    return hasattr(n, "ndim")
+
+
+def val(v):
+    if isinstance(v, np.void):
+        return ("void", v.tobytes())
+    if isinstance(v, (int, np.integer)):
+        return int(v)
+    return repr(v)
+
+
+def tree(r):
+    out = {"/": ("g", None, {k: val(v) for k, v in r.attrs.items()})}
+    def cb(name, node):
+        out["/" + name] = ("d" if is_ds(node) else "g", val(node[()]) if is_ds(node) else None,
+                           {k: val(v) for k, v in node.attrs.items()})
+    r.visititems(cb)
+    return out
+
+
+def apply(r, op, v):
+    kind, p = op[0], op[1]
+    try:
+        if kind == "create_group": r.create_group(p)
+        elif kind in ("set", "setitem"): r[p] = v
+        elif kind in ("del", "delitem"): del r[p]
+        elif kind == "attr_set": r[p].attrs[op[2] if len(op) > 2 and op[2] else "k"] = v
+        elif kind == "attr_del": del r[p].attrs[op[2] if len(op) > 2 and op[2] else "k"]
+        else: raise AssertionError(op)
+        return "ok"
+    except (KeyError, ValueError, TypeError, OSError, RuntimeError) as e:
+        return "exc:" + type(e).__name__
+
+
+def meta(r):
+    return [u.json() for u in r.ih5_meta]
+
+
+tmp = tempfile.mkdtemp(prefix="vt_merge_")
+bad = []
+try:
+    rec = CLS(tmp + "/rec", "w")
+    n = 0
+    for i, ops in enumerate(HISTORY):
+        if i > 0:
+            rec.commit_patch()
+            rec.create_patch()
+        for op in ops:
+            n += 1
+            apply(rec, op, n)
+    rec.commit_patch()
+    rec.close()
+    src = CLS(tmp + "/rec", "r")
+    t0, m0 = tree(src), meta(src)
+    files0 = {str(f): Path(f).read_bytes() for f in Path(tmp).iterdir()}
+    mfile = src.merge_files(Path(tmp) / "mrg")
+    if meta(src) != m0:
+        bad.append(("ih5_meta of the still-open source changed by merge", m0, meta(src)))
+    if tree(src) != t0:
+        bad.append(("view of the source changed by merge",))
+    if any(Path(f).read_bytes() != b for f, b in files0.items()):
+        bad.append(("a source file changed on disk",))
+    m = CLS(tmp + "/mrg", "r")
+    if tree(m) != t0 or len(m.ih5_files) != 1:
+        bad.append(("merged tree differs from the overlay view", tree(m), t0))
+    mu, su = m.ih5_meta[0], src.ih5_meta
+    if not (mu.record_uuid == su[-1].record_uuid and mu.patch_uuid == su[-1].patch_uuid
+            and mu.patch_index == su[-1].patch_index and mu.prev_patch is None):
+        bad.append(("merged container does not identify as the same record state",))
+    m.close(); src.close()
+    s2 = CLS(tmp + "/rec", "r+")
+    apply(s2, FOLLOW, 7777)
+    s2.commit_patch()
+    t2, pf = tree(s2), s2.ih5_files[-1]
+    s2.close()
+    try:
+        both = CLS([Path(mfile), Path(pf)], "r")
+        if tree(both) != t2:
+            bad.append(("follow-up patch gives a different result on the merged container", tree(both), t2))
+        both.close()
+    except ValueError as e:
+        bad.append(("follow-up patch does not open on the merged container", str(e)[:200]))
+finally:
+    shutil.rmtree(tmp, ignore_errors=True)
+for b in bad:
+    print("MISMATCH:", b)
+print("property holds on this history" if not bad else "PROPERTY VIOLATED")
+sys.exit(1 if bad else 0)
+'''
+
+
+def make_merge_script(history, follow, cls):
+    return MERGE_SCRIPT.replace("__HISTORY__", repr(history)).replace("__FOLLOW__", repr(follow)).replace("__CLS__", repr(cls))
